@@ -43,6 +43,17 @@ Next == StartOp \/ StartOpen \/ TxSteps \/ WalSteps \/ ApplySteps \/ CkptSteps \
 
 Spec == Init /\ [][Next]_s
 
+(* Liveness of recovery (growth beyond the listed safety properties; serves C03 "a crash at any instant ... the next   *)
+(* open succeeds" and C14 "never hangs"): the environment may kill the process MaxCrashes times, at any step, also in *)
+(* the middle of a recovery that a previous kill made necessary; under weak fairness of the steps of the code itself  *)
+(* (the kills are not fair: they need not happen) every operation and every open returns, i.e. the control state is   *)
+(* "idle" again and again, and a store that was open when it was killed is open again.                                *)
+CodeNext == StartOp \/ StartOpen \/ TxSteps \/ WalSteps \/ ApplySteps \/ CkptSteps \/ AbortSteps \/ CloseSteps
+            \/ OpenSteps \/ CleanSteps \/ Return \/ PruneAny
+FairSpec == Spec /\ WF_s(CodeNext)
+Live_Returns == []<>(s.pc = "idle")
+Live_Reopens == []((~s.open /\ s.pc = "idle") => <>(s.open /\ s.pc = "idle"))
+
 Inv_C01 == C01_MapSemantics(s)
 Inv_C02 == C02_VersionsFresh(s)
 Inv_C03 == C03_CrashAtomic(s)
